@@ -373,7 +373,7 @@ def r3_maps(ctx):
     if any(k[1] == "uninterpretable" for k in first):
         raise AnalysisError("C01.R3: " + [m for k, m in first.items() if k[1] == "uninterpretable"][0])
     for (q, key), msg in sorted(first.items()):
-        r.violation("C01.R3", q, key, msg, repo.fn(q))
+        r.violation("C01.R3", q, key, msg, repo.where(q))
     if not first:
         for cls in ("SingleInterval", "CompoundInterval"):
             for m in ("parent_to_relative_pos", "relative_to_parent_pos", "relative_interval_to_parent_location"):
